@@ -121,6 +121,29 @@ def loops_in(fn):
     return out
 
 
+def loop_shape(fn):
+    """the loop structure of a function (nested defs included): kind, nesting depth and header text of every loop, in source order.
+    Loop contracts are attached by ordinal, so they describe THESE loops; when the shape differs from the one the baseline was recorded
+    with, a failing loop obligation says nothing about the property."""
+    out = []
+
+    def walk(n, depth):
+        for c in ast.iter_child_nodes(n):
+            if isinstance(c, (ast.ClassDef, ast.Lambda)):
+                continue
+            if isinstance(c, (ast.For, ast.AsyncFor)):
+                out.append(f'{depth}:{type(c).__name__}:{ast.unparse(c.iter)[:80]}')
+                walk(c, depth + 1)
+            elif isinstance(c, ast.While):
+                out.append(f'{depth}:While:{ast.unparse(c.test)[:80]}')
+                walk(c, depth + 1)
+            else:
+                walk(c, depth)
+
+    walk(fn, 0)
+    return out
+
+
 def decorators(fn):
     return [ast.unparse(d) for d in fn.decorator_list]
 
